@@ -155,12 +155,13 @@ def d4(chk, prog, ploidies):
     tb.done("a purity-adjusted copy number can be negative or non-integer")
     # (b) under the mixing model the reported cn is exactly n; log2 is rewritten relative to the reference
     tb2 = Table(chk, "cn-integer-nonneg", "do_call(clonal, purity<1) under the mixing model reports cn == n", fi.loc(), fi.qn + "::cn (model)")
-    for P, hap, fem, par in itertools.product(ploidies, [False, True], [False, True], [None, "grch38"]):
+    # (tables without any X row, or with Y rows only: one chromosome called at a time, a panel without X probes)
+    for P, hap, fem, par, subset in itertools.product(ploidies, [False, True], [False, True], [None, "grch38"], [CLS5, ("auto", "y"), ("y",), ("auto", "x")]):
         W.reset()
         it = Interp(prog, model)
         p = purity_val()
         rows, ns = [], []
-        classes = [c for c in CLS5 if not (c == "pary" and par)]          # r = 0 rows cannot satisfy the premise
+        classes = [c for c in subset if not (c == "pary" and par)]          # r = 0 rows cannot satisfy the premise
         for c in classes:
             r, x = ref_exp_oracle(c, P, hap, fem, par)
             n_ = Term.sym(f"n_{c}", 0, INF, True)
@@ -174,7 +175,7 @@ def d4(chk, prog, ploidies):
             continue
         for i, c in enumerate(classes):
             got = out.data.cols["cn"].v[i]
-            tb2.cell(same(got, ns[i]), dict(ploidy=P, hap=hap, fem=fem, par=par, cls=c, cn=repr(got), want="n"))
+            tb2.cell(same(got, ns[i]), dict(ploidy=P, hap=hap, fem=fem, par=par, cls=c, table=list(classes), cn=repr(got), want="n"))
             if P % 2 == 0:
                 r = ref_exp_oracle(c, P, hap, fem, par)[0]
                 base = f_log2(f_max(t_div(ns[i], T(P)), Fr(1, 1000)))
@@ -184,11 +185,11 @@ def d4(chk, prog, ploidies):
     tb2.done("clonal call does not recover n from a log2 generated by the mixing model")
     # (c) without purity: nearest integer to r*2^v
     tb3 = Table(chk, "cn-integer-nonneg", "do_call(clonal, no purity): cn == round(r*2^v)", fi.loc(), fi.qn + "::cn (pure)")
-    for P, hap, style, pur, layout in itertools.product(ploidies, [False, True], ["", "chr"], [None, 1], ["classes", "interleaved rows"]):
+    for P, hap, style, pur, layout in itertools.product(ploidies, [False, True], ["", "chr"], [None, 1], ["classes", "interleaved rows", "no X row", "Y rows only"]):
         W.reset()
         it = Interp(prog, model)
         # second layout: literally these five rows, a chromosome's rows not adjacent (tables sorted by something else, concatenated batches)
-        cl = ["auto", "x", "y"] if layout == "classes" else ["auto", "x", "auto", "y", "x"]
+        cl = {"classes": ["auto", "x", "y"], "interleaved rows": ["auto", "x", "auto", "y", "x"], "no X row": ["auto", "y", "auto"], "Y rows only": ["y", "y"]}[layout]
         rows = [{"chromosome": chrom(c, style), "start": Term.sym("s"), "end": Term.sym("e"), "gene": "g", "log2": Term.sym(f"v_{c}_{i}")} for i, c in enumerate(cl)]
         g = make_ga("CopyNumArray", rows, {"_classes": cl, "sample_id": "S"}, index="any", exact=layout != "classes")
         pv = pur
